@@ -1044,6 +1044,17 @@ func (e *Env) call(x *ECall) *SV {
 	case "bit":
 		c.declBits()
 		return e.boolSV("(bits.bit " + arg(0).S + " " + arg(1).S + ")")
+	case "toInt":
+		c.uses["str"] = true
+		return e.intSV("(str.to_int " + arg(0).S + ")")
+	case "toUpper":
+		c.uses["str"] = true
+		c.declareFun("ext.strings.ToUpper", []string{"String"}, "String")
+		return &SV{S: "(ext.strings.ToUpper " + arg(0).S + ")", T: types.Typ[types.String]}
+	case "trimSpace":
+		c.uses["str"] = true
+		c.declareFun("ext.strings.TrimSpace", []string{"String"}, "String")
+		return &SV{S: "(ext.strings.TrimSpace " + arg(0).S + ")", T: types.Typ[types.String]}
 	case "errClass":
 		c.declErrClass()
 		return e.intSV("(ext.errclass " + arg(0).S + ")")
